@@ -1038,9 +1038,9 @@ namespace Pistache::Http::Experimental
 
         if (conn == nullptr)
         {
-            return Async::Promise<Response>([this, resource = std::move(resource),
-                                             request](Async::Resolver& resolve,
-                                                      Async::Rejection& reject) {
+            auto promise = Async::Promise<Response>([this, resource = std::move(resource),
+                                                     request](Async::Resolver& resolve,
+                                                              Async::Rejection& reject) {
                 Guard guard(queuesLock);
 
                 auto data = std::make_shared<Connection::RequestData>(
@@ -1049,6 +1049,13 @@ namespace Pistache::Http::Experimental
                 if (!queue.enqueue(data))
                     data->reject(std::runtime_error("Queue is full"));
             });
+
+            // A connection may have been released between pickConnection() and the
+            // enqueue above: its completion handler looked at the queue while it was
+            // still empty, and nobody would look again. Do it now.
+            processRequestQueue();
+
+            return promise;
         }
         else
         {
